@@ -37,6 +37,8 @@ EXTRA = [
      ["poly", {}]],
     ["online", {}, [["naive", {"strategy": "last"}], ["naive", {"strategy": "mean", "window_length": 3}]]],
     ["reduce", {"strategy": "recursive", "window_length": 4, "reg": "tsf"}],
+    ["pipeline", {}, [], ["naive", {"strategy": "last"}]],                 # a pipeline that consists of its forecaster only
+    ["pipeline", {}, [], ["poly", {"degree": 1}]],
     ["ensemble", {"aggfunc": "mean", "n_jobs": 2}, [["naive", {"strategy": "last"}], ["poly", {"degree": 1}], ["naive", {"strategy": "drift"}]]],
 ]
 
